@@ -1,1 +1,178 @@
-From GV Require Import Sched Events CowModel.
+(* C04 - cow_guarded snapshots are immutable; commits are atomic and never lost.
+   Statements only: every theorem is closed by [exact] of a lemma of Proofs/CowProofs.v.
+   R nw ns x pl progs s  =  s is reachable from the initial state with nw write-handle slots and ns snapshot
+   slots per thread, initial value x, throw plan pl, by ANY schedule, for ANY client programs [progs]
+   (any number of threads).  Model: Model/CowModel.v (one step = one visible operation). *)
+From Coq Require Import List Arith ZArith Bool.
+Import ListNotations.
+From GV Require Import Sched Events CowModel CowBase CowHeap CowProofs.
+Local Open Scope Z_scope.
+
+(* once a version is published (its write handle's release has begun) its content never changes again, over any continuation of the run *)
+Theorem cow_snapshot_immutable :
+  (forall nw ns x pl progs s sc v,
+  R nw ns x pl progs s -> published (heap (gl s) v) = true ->
+  content (heap (gl (run glob loc tstep s sc)) v) = content (heap (gl s) v) /\
+  published (heap (gl (run glob loc tstep s sc)) v) = true).
+Proof. exact snapshot_immutable. Qed.
+
+(* (1) a held snapshot: not destroyed, published, never half-written, counted, shows the content it had when it was taken, and is at least as recent as every release that had returned when lock_shared was invoked; (2) every read through a snapshot returns the value it had at acquisition, without a fault event *)
+Theorem cow_snapshot_valid :
+  (forall nw ns x pl progs s t l sn,
+  R nw ns x pl progs s -> nth_error (thr s) t = Some l -> In (Some sn) (ssl l) ->
+  let y := heap (gl s) (sv sn) in
+  freed y = false /\ published y = true /\ vdirty y = false /\ (1 <= refs y)%nat /\ content y = sval sn /\
+  (sneed sn <= vseq y)%nat) /\
+  (forall nw ns x pl progs s t c l g' l' es,
+  R nw ns x pl progs s -> nth_error (thr s) t = Some l -> at_ l = SR_re ->
+  tstep t c (gl s) l = Some (g', l', es) ->
+  exists sn, nth_error (ssl l) (sl l) = Some (Some sn) /\
+             es = [E K_RD_END (O_V (sv sn)) (sval sn); ret_ev (sval sn)]).
+Proof. exact (conj snapshot_valid snapshot_read_returns). Qed.
+
+(* (1) at most one write handle is live, and its thread owns the outer mutex; (2) from the acquisition of the outer mutex in lock() to the end of the release / cancel only one thread is inside (owns = inside lock() past the mutex, holding a handle, or inside release / cancel) *)
+Theorem cow_writers_serial :
+  (forall nw ns x pl progs s u lu a w lw b,
+  R nw ns x pl progs s -> nth_error (thr s) u = Some lu -> In (Some a) (wsl lu) ->
+  nth_error (thr s) w = Some lw -> In (Some b) (wsl lw) ->
+  u = w /\ a = b /\ omtx (gl s) = Some u) /\
+  (forall nw ns x pl progs s u lu w lw,
+  R nw ns x pl progs s -> nth_error (thr s) u = Some lu -> nth_error (thr s) w = Some lw ->
+  owns lu = true -> owns lw = true -> u = w).
+Proof. exact (conj writers_serial writer_section_exclusive). Qed.
+
+(* (1) a live write handle was made from the version that is still the committed one; its private copy is unpublished, alive, unshared, and differs from the committed content exactly by the handle's edits; (2) lock() returns a fresh copy of the committed content; (3) while a write handle is live no step of any thread changes the committed version *)
+Theorem cow_base_latest :
+  (forall nw ns x pl progs s u l v,
+  R nw ns x pl progs s -> nth_error (thr s) u = Some l -> In (Some v) (wsl l) ->
+  let g := gl s in
+  cbase l = committed g /\ published (heap g v) = false /\ freed (heap g v) = false /\ refs (heap g v) = O /\
+  content (heap g v) = apply_edits (content (heap g (committed g))) (ced l)) /\
+  (forall nw ns x pl progs s t c l g' l' es,
+  R nw ns x pl progs s -> nth_error (thr s) t = Some l -> at_ l = L_dec ->
+  tstep t c (gl s) l = Some (g', l', es) ->
+  nth_error (wsl l') (sl l) = Some (Some (cv l)) /\ ced l' = [] /\ cbase l' = committed g' /\
+  content (heap g' (cv l)) = content (heap g' (committed g')) /\ committed g' = committed (gl s) /\ In (ret_ev 0) es) /\
+  (forall nw ns x pl progs s u l v tc,
+  R nw ns x pl progs s -> nth_error (thr s) u = Some l -> In (Some v) (wsl l) ->
+  committed (gl (step glob loc tstep s tc)) = committed (gl s)).
+Proof. exact (conj base_latest (conj lock_returns_copy base_stable)). Qed.
+
+(* (1) in every reachable state the committed content is the fold, from the initial value, of the edits of the released handles in commit order; (2) the committed version and [applied] change only at the readingLeft flip of a release, by the owner of both mutexes, which appends exactly that handle's edits to a copy made from the committed version - in particular cancel() never changes them; (3) with no release inside modify both copies of the inner lr_guarded hold the committed version *)
+Theorem cow_no_lost_update :
+  (forall nw ns x pl progs s,
+  R nw ns x pl progs s -> content (heap (gl s) (committed (gl s))) = apply_edits x (applied (gl s))) /\
+  (forall nw ns x pl progs s t c l g' l' es,
+  R nw ns x pl progs s -> nth_error (thr s) t = Some l -> tstep t c (gl s) l = Some (g', l', es) ->
+  (committed g' = committed (gl s) /\ applied g' = applied (gl s)) \/
+  (at_ l = W_str /\ omtx (gl s) = Some t /\ imtx (gl s) = Some t /\ committed g' = cv l /\
+   applied g' = applied (gl s) ++ ced l /\
+   content (heap (gl s) (cv l)) = apply_edits (content (heap (gl s) (committed (gl s)))) (ced l))) /\
+  (forall nw ns x pl progs s,
+  R nw ns x pl progs s -> imtx (gl s) = None ->
+  cvid (cleft (gl s)) = committed (gl s) /\ cvid (cright (gl s)) = committed (gl s)).
+Proof. exact (conj no_lost_update (conj commit_in_mutex_order copies_committed_when_idle)). Qed.
+
+(* (1) a lock_shared records at its invocation the number of releases that have returned (sneed); (2,3) the release that returns as number nret+1 committed the version with commit number nret+1; (4) a held snapshot has commit number >= sneed: it is that version or a later one; (5) the snapshot taken is the version committed at the load of readingLeft *)
+Theorem cow_publish_atomic :
+  (forall t c g l g' l' es k s0 r,
+  at_ l = Idle -> prog l = LockShared k s0 :: r -> nth_error (ssl l) s0 = Some None ->
+  tstep t c g l = Some (g', l', es) -> at_ l' = S_ldc /\ need l' = nret g /\ g' = g) /\
+  (forall nw ns x pl progs s t l,
+  R nw ns x pl progs s -> nth_error (thr s) t = Some l -> at_ l = W_ounlock ->
+  committed (gl s) = cv l /\ vseq (heap (gl s) (cv l)) = ncommit (gl s) /\ ncommit (gl s) = S (nret (gl s))) /\
+  (forall t c g l g' l' es,
+  at_ l = W_ounlock -> tstep t c g l = Some (g', l', es) ->
+  nret g' = S (nret g) /\ omtx g' = None /\ at_ l' = Idle /\ es = [E K_UNLOCK O_OM 0; ret_ev 0] /\ heap g' = heap g /\
+  committed g' = committed g) /\
+  (forall nw ns x pl progs s t l sn,
+  R nw ns x pl progs s -> nth_error (thr s) t = Some l -> In (Some sn) (ssl l) ->
+  (sneed sn <= vseq (heap (gl s) (sv sn)))%nat /\ (vseq (heap (gl s) (sv sn)) <= ncommit (gl s))%nat) /\
+  (forall nw ns x pl progs s t c l g' l' es,
+  R nw ns x pl progs s -> nth_error (thr s) t = Some l -> at_ l = S_ldr ->
+  tstep t c (gl s) l = Some (g', l', es) ->
+  nth_error (ssl l') (sl l) = Some (Some (Snap (committed (gl s)) (need l) (content (heap (gl s) (committed (gl s)))))) /\
+  vseq (heap (gl s) (committed (gl s))) = ncommit (gl s) /\ (need l <= nret (gl s))%nat).
+Proof. exact (conj lock_shared_records (conj release_returns (conj release_return_step (conj publish_atomic lock_shared_takes_committed)))). Qed.
+
+(* the step of cancel(): the outer mutex is released, the committed version, the applied edits and both copies are untouched, the private version (alive, unpublished, unshared) is destroyed - once: [races] counts double destructions - and no other version is touched *)
+Theorem cow_cancel :
+  (forall nw ns x pl progs s t c l g' l' es,
+  R nw ns x pl progs s -> nth_error (thr s) t = Some l -> at_ l = C_unlock ->
+  tstep t c (gl s) l = Some (g', l', es) ->
+  let g := gl s in
+  omtx g = Some t /\ omtx g' = None /\ committed g' = committed g /\ applied g' = applied g /\
+  cleft g' = cleft g /\ cright g' = cright g /\
+  freed (heap g (cv l)) = false /\ published (heap g (cv l)) = false /\ refs (heap g (cv l)) = O /\
+  freed (heap g' (cv l)) = true /\ (forall v, v <> cv l -> heap g' v = heap g v) /\
+  destroyed g' = destroyed g + 1 /\ races g' = O /\ es = [E K_UNLOCK O_OM 0; ret_ev 0] /\ at_ l' = Idle).
+Proof. exact cancel_step. Qed.
+
+(* (1) no fault is ever logged (no payload window overlaps a write window, no destroyed version is used), no conflicting accesses to the two shared_ptr copies, no double destruction; (2) a version that exists and is not destroyed is referenced, or is the private version of a write handle / of a lock(), release, cancel in progress; (3) the reference count is exactly: copies of the inner lr_guarded + held snapshots; (4) so at rest exactly the committed version is alive and both mutexes are free *)
+Theorem cow_versions_ledger :
+  (forall nw ns x pl progs s, R nw ns x pl progs s -> faults (gl s) = O /\ races (gl s) = O) /\
+  (forall nw ns x pl progs s v,
+  R nw ns x pl progs s -> (v < next (gl s))%nat -> freed (heap (gl s) v) = false ->
+  (1 <= refs (heap (gl s) v))%nat \/ exists a l, nth_error (thr s) a = Some l /\ pown l v) /\
+  (forall nw ns x pl progs s v,
+  R nw ns x pl progs s -> refs (heap (gl s) v) = (cpc (gl s) v + list_sum (map (snc v) (thr s)))%nat) /\
+  (forall nw ns x pl progs s,
+  R nw ns x pl progs s -> (forall u l, nth_error (thr s) u = Some l -> at_rest l) ->
+  omtx (gl s) = None /\ imtx (gl s) = None /\ created (gl s) = Z.of_nat (next (gl s)) /\
+  forall v, (v < next (gl s))%nat -> (freed (heap (gl s) v) = false <-> v = committed (gl s))).
+Proof. exact (conj no_fault (conj version_accounted (conj refs_exact versions_at_rest))). Qed.
+
+(* the inner protocol: a reader window and a writer window are never open on the same copy of the inner lr_guarded *)
+Theorem cow_inner_exclusion :
+  (forall nw ns x pl progs s r lr w lw y,
+  R nw ns x pl progs s -> nth_error (thr s) r = Some lr -> nth_error (thr s) w = Some lw ->
+  wr_window lw y -> ~ rd_window lr y).
+Proof. exact inner_exclusion. Qed.
+
+(* ---------- non-vacuity: the hypotheses are satisfiable by concrete reachable states ---------- *)
+Definition ex_progs : list (list op) :=
+  [[Lock 0; Write 0 10; Release 0; Lock 0; Incr 0; Cancel 0]; [LockShared 10 0; ReadSnap 0; DropSnap 0]].
+Definition ex_init := init 1 1 3 [] ex_progs.
+Definition rep (t n : nat) : list (nat * nat) := repeat (t, O) n.
+Lemma ex_R sc : R 1 1 3 [] ex_progs (run glob loc tstep ex_init sc).
+Proof. exists sc. reflexivity. Qed.
+
+(* thread 1 takes a snapshot, thread 0 commits 10: the snapshot still holds the old version (3), which is
+   not the committed one any more, and is alive *)
+Definition ex_s1 := run glob loc tstep ex_init (rep 1 5 ++ rep 0 22).
+Example ex_snapshot_across_commit :
+  exists l sn, nth_error (thr ex_s1) 1 = Some l /\ In (Some sn) (ssl l) /\ sv sn <> committed (gl ex_s1) /\
+               sval sn = 3 /\ content (heap (gl ex_s1) (committed (gl ex_s1))) = 10 /\
+               published (heap (gl ex_s1) (sv sn)) = true.
+Proof. vm_compute. do 2 eexists. split; [reflexivity|]. split; [left; reflexivity|]. repeat split; discriminate || reflexivity. Qed.
+(* after the snapshot is dropped and the second handle cancelled everything is at rest: version 0 destroyed *)
+Definition ex_s2 := run glob loc tstep ex_s1 (rep 1 4 ++ rep 0 16).
+Example ex_at_rest : (forall u l, nth_error (thr ex_s2) u = Some l -> at_rest l) /\
+                     freed (heap (gl ex_s2) 0) = true /\ committed (gl ex_s2) = 1%nat /\ next (gl ex_s2) = 3%nat.
+Proof.
+  split; [|vm_compute; repeat split].
+  intros u l H. destruct u as [|[|u]]; vm_compute in H; inversion H; subst; clear H.
+  - repeat split. intros sn [E|[]]; discriminate.
+  - repeat split. intros sn [E|[]]; discriminate.
+  - destruct u; discriminate.
+Qed.
+(* a live write handle with one edit *)
+Definition ex_s3 := run glob loc tstep ex_init (rep 0 12).
+Example ex_live_handle : exists l v, nth_error (thr ex_s3) 0 = Some l /\ In (Some v) (wsl l) /\ ced l = [ESet 10].
+Proof. vm_compute. do 2 eexists. split; [reflexivity|]. split; [left; reflexivity|reflexivity]. Qed.
+(* pcs named in the hypotheses are reachable: SR_re, L_dec, W_ounlock, W_str, S_ldr, C_unlock *)
+Definition pc_at (s : sys glob loc) (t : nat) : option pc := option_map at_ (nth_error (thr s) t).
+Example ex_pcs :
+  pc_at (run glob loc tstep ex_init (rep 1 7)) 1 = Some SR_re /\
+  pc_at (run glob loc tstep ex_init (rep 0 8)) 0 = Some L_dec /\
+  pc_at (run glob loc tstep ex_init (rep 0 15)) 0 = Some W_str /\
+  pc_at (run glob loc tstep ex_init (rep 0 21)) 0 = Some W_ounlock /\
+  pc_at (run glob loc tstep ex_init (rep 1 3)) 1 = Some S_ldr /\
+  pc_at (run glob loc tstep ex_init (rep 0 37)) 0 = Some C_unlock.
+Proof. vm_compute. repeat split. Qed.
+(* a writer window and a reader window exist (on different copies) *)
+Example ex_windows :
+  let s := run glob loc tstep ex_init (rep 0 15 ++ rep 1 4) in
+  exists lw lr, nth_error (thr s) 0 = Some lw /\ nth_error (thr s) 1 = Some lr /\
+                wr_window lw false /\ rd_window lr true.
+Proof. vm_compute. do 2 eexists. split; [reflexivity|]. split; [reflexivity|]. split; [left|]; split; reflexivity. Qed.
